@@ -28,6 +28,8 @@ func faultMenu(thorough bool) []fw.Fault {
 		{Kind: "trunc_chunked"}, {Kind: "trunc_cl"},
 		{Kind: "status", Status: 500}, {Kind: "status", Status: 404},
 		// answers that declare no Content-Type
+		// an answer the backend chose to compress (the client asked for nothing of the kind)
+		{Kind: "ok", Gzip: true}, {Kind: "ok", Gzip: true, Chunked: true},
 		{Kind: "ok", CT: "-"}, {Kind: "cut_close", CutAt: 200, CT: "-"}, {Kind: "cut_reset", CutAt: 200, CT: "-"}, {Kind: "trunc_chunked", CT: "-"}, {Kind: "trunc_cl", CT: "-"},
 	}
 	if thorough {
@@ -342,6 +344,9 @@ func key(c *fw.Case) string {
 
 // class reduces a fault to its class for violation keys.
 func class(f fw.Fault) string {
+	if f.Gzip {
+		return "ok/gzip"
+	}
 	if f.CT == "-" {
 		f.CT = ""
 		return class(f) + "/no-content-type"
@@ -419,7 +424,11 @@ func judge(run *rep.Run, c *fw.Case) {
 		}
 	}
 	// body
-	if c.Faults[first.Backend].Kind == "status" {
+	if c.Faults[first.Backend].Gzip {
+		if string(res.Body) != string(first.FullBody) || res.Header.Get("Content-Encoding") != "gzip" {
+			run.Violation("C02/body-altered/compressed-backend-answer/"+c.Engine, fmt.Sprintf("the backend answered %d bytes with Content-Encoding: gzip; the client received %d bytes with Content-Encoding %q", len(first.FullBody), len(res.Body), res.Header.Get("Content-Encoding")), wit)
+		}
+	} else if c.Faults[first.Backend].Kind == "status" {
 		if string(res.Body) != string(first.FullBody) {
 			run.Violation("C02/error-body-altered", "a backend's error answer was not relayed unmodified", wit)
 		}
